@@ -137,7 +137,11 @@ func LoopExits(p *core.Prog) []LoopExit {
 								return
 							}
 							if k, ok := ret.Results[0].(*ssa.Const); ok && k.Value != nil && !boolConst(k) {
-								out = append(out, LoopExit{Fn: fn, In: f, Kind: "stop-callback", Over: driver, Pos: instrPos(ret), Loop: f.Pos()})
+								kind := "stop-callback"
+								if stopsOnError(ret.Block()) {
+									kind = "stop-callback-on-error"
+								}
+								out = append(out, LoopExit{Fn: fn, In: f, Kind: kind, Over: driver, Pos: instrPos(ret), Loop: f.Pos()})
 							}
 						})
 					}
@@ -196,4 +200,21 @@ func callbackDriver(f *ssa.Function) string {
 
 func (e LoopExit) String(p *core.Prog) string {
 	return fmt.Sprintf("%s\t%s\t%s\t%s", e.Kind, e.Fn.Name, e.Over, p.Pos(e.Pos))
+}
+
+// stopsOnError: the block is reached only after an error was found (an error value tested
+// non-nil, or matched with errors.Is): the walk is abandoned because it failed, which the
+// enclosing function reports, not because the callback lost interest.
+func stopsOnError(b *ssa.BasicBlock) bool {
+	for _, cd := range core.Conditions(b) {
+		if v, nonNil, ok := isErrNilTest(cd); ok && nonNil && isErrorType(v.Type()) {
+			return true
+		}
+		if c, ok := cd.Val.(*ssa.Call); ok && cd.Truth {
+			if o := core.CalleeObj(c); o != nil && core.QualName(o) == "errors.Is" {
+				return true
+			}
+		}
+	}
+	return false
 }
